@@ -132,6 +132,10 @@ func parsePlugins(ifi rawInterface, maxInterval time.Duration, epoch time.Time) 
 			return nil, err
 		}
 
+		if err := checkEncodable(cp.Portal); err != nil {
+			return nil, fmt.Errorf("captive portal URI cannot be encoded in an option: %v", err)
+		}
+
 		plugins = append(plugins, cp)
 	}
 
@@ -209,10 +213,22 @@ func parseDNSSL(d rawDNSSL, maxInterval time.Duration) (*plugin.DNSSL, error) {
 		names = append(names, name)
 	}
 
+	opt := &ndp.DNSSearchList{Lifetime: lifetime, DomainNames: names}
+	if err := checkEncodable(opt); err != nil {
+		return nil, fmt.Errorf("domain names cannot be encoded in a single option: %v", err)
+	}
+
 	return &plugin.DNSSL{
 		Lifetime:    lifetime,
 		DomainNames: names,
 	}, nil
+}
+
+// checkEncodable verifies that an option built from static configuration fits
+// in a router advertisement: the size of a single option is limited.
+func checkEncodable(o ndp.Option) error {
+	_, err := ndp.MarshalMessage(&ndp.RouterAdvertisement{Options: []ndp.Option{o}})
+	return err
 }
 
 // autoPrefix is the sentinel prefix which is used to automatically infer the
@@ -427,6 +443,20 @@ func parseRDNSS(d rawRDNSS, maxInterval time.Duration) (*plugin.RDNSS, error) {
 		}
 
 		slices.SortStableFunc(ips, func(a, b netip.Addr) int { return a.Compare(b) })
+	}
+
+	// All of the servers must fit in a single option, including the one which
+	// takes the place of the :: wildcard at runtime.
+	all := ips
+	if auto {
+		all = append([]netip.Addr{netip.IPv6Unspecified()}, ips...)
+	}
+
+	if len(all) > 0 {
+		opt := &ndp.RecursiveDNSServer{Lifetime: lifetime, Servers: all}
+		if err := checkEncodable(opt); err != nil {
+			return nil, fmt.Errorf("%d servers cannot be encoded in a single option: %v", len(all), err)
+		}
 	}
 
 	return &plugin.RDNSS{
